@@ -750,7 +750,8 @@ theorem parsePointer_keeps (c : Codec) (e : Endian) (bytes : Bytes) (ds : Nat) (
   unfold parsePointer
   split
   · exact keeps_err _ _
-  · split
+  · unfold parsePointerAt
+    split
     · split
       · split
         · exact writeString_keeps a _ _
@@ -764,7 +765,8 @@ theorem parseLabel_keeps (c : Codec) (e : Endian) (bytes : Bytes) (ts : Nat) (a 
     Keeps a.endian (parseLabel c e bytes ts a pos) := by
   unfold parseLabel
   split
-  · split
+  · unfold parseLabelAt
+    split
     · exact writeLabel_keeps a _ _
     · exact keeps_err _ _
     · rename_i h; exact absurd h (sjisAt_total c _ _)
